@@ -21,8 +21,8 @@ import numpy as np  # noqa: E402
 
 PROP = "C30"
 GAP_GUARD = 1e-3
-RANK = dict(Energy=0, vel=1, bc=1, bc_int=1, im=2, dbc=2, d3=3)
-NATURAL = dict(Energy=0, vel=1, bc=2, bc_int=2, im=2, dbc=3, d3=3)  # powers of the lattice constant
+RANK = dict(Energy=0, vel=1, bc=1, bc_int=1, im=2, dbc=2, d3=3, spin=1, dspin=2)
+NATURAL = dict(Energy=0, vel=1, bc=2, bc_int=2, im=2, dbc=3, d3=3, spin=0, dspin=1)  # powers of the lattice constant
 XYZ = "xyz"
 
 
@@ -43,6 +43,8 @@ def fresh_tabulators(tab, names, ibands, has_AA):
         im=lambda: tab.InvMass(ibands=ib),
         dbc=lambda: tab.DerBerryCurvature(ibands=ib, kwargs_formula=dict(noext)),
         d3=lambda: tab.Der3E(ibands=ib),
+        spin=lambda: tab.Spin(ibands=ib),
+        dspin=lambda: tab.DerSpin(ibands=ib),
     )
     return {n: mk[n]() for n in names}
 
@@ -224,10 +226,14 @@ def case(ctx, rng, idx, state):
     if kind == "generic":
         nw = int(rng.integers(1, 5))
         has_AA = bool(rng.random() < 0.4)
+        has_SS = bool(rng.random() < 0.25)
+        if has_SS:
+            nw = 2 * int(rng.integers(1, 3))
         system = gen_systems.herm_system(rng, num_wann=nw, radius=rng.uniform(1.0, 2.2),
-                                         keys=("Ham", "AA") if has_AA else ("Ham",),
-                                         centers=["random", "outside", "zero"][int(rng.integers(3))])
-        pool = ["vel", "bc", "im", "dbc", "d3"]
+                                         keys=("Ham",) + (("AA",) if has_AA else ()) + (("SS",) if has_SS else ()),
+                                         centers=["random", "outside", "zero"][int(rng.integers(3))],
+                                         spinor=True if has_SS else None)
+        pool = ["vel", "bc", "im", "dbc", "d3"] + (["spin", "dspin"] if has_SS else [])
     elif kind == "cubic":
         system = cubic_system(rng, state["pg"])
         pool = ["vel", "im", "d3"]
@@ -345,11 +351,11 @@ if __name__ == "__main__":
     harness.main(
         PROP, "exploration", case, setup_fn=setup,
         tiers=dict(quick=dict(cases=64, shards=8, time=150), thorough=dict(cases=2400, shards=16, time=1000)),
-        rule="generic random Hermitian models (1-4 WFs, with/without AA, centres random/outside/zero), and models with a "
+        rule="generic random Hermitian models (1-4 WFs, with/without AA/SS, centres random/outside/zero), and models with a "
              "real symmetry (simple cubic O_h x T with isotropic real hoppings; real hoppings = T only; H(R)=H(-R) = "
              "inversion only); grids N_i in 1..6 with 2<=Prod(N)<=64 (150 thorough), up to 3 (6) factorisations "
              "NKdiv x NKFFT per case incl. a mixed one, band subsets, use_irred_kpt on/off, tabulators of rank 0-3 "
-             "(Energy, Velocity, BerryCurvature, InvMass, DerBerryCurvature, Der3E), random k_batch; component "
+             "(Energy, Velocity, BerryCurvature, InvMass, DerBerryCurvature, Der3E, Spin, DerSpin with random SS), random k_batch; component "
              "specifications: strings (any case), index tuples, trace, norm, sq, iband None/int/list; a run is "
              "non-trivial when Prod(N)>=2, distinct by (kind, num_wann, N, NKdiv, NKFFT, band subset, irreducible, "
              "quantities)",
